@@ -375,7 +375,7 @@ func probeSource(defs []*Def) string {
 				case c.Ty == "bool":
 					get = fmt.Sprintf("fmtB(v.(%s).%s())", t.Name, c.Name)
 					mk = "b, ok := scB(sc); return b, ok"
-				case c.Ty == "uint8" || c.Ty == "uint64" || strings.HasPrefix(c.Ty, "Un"):
+				case c.Ty == "uint8" || c.Ty == "uint16" || c.Ty == "uint64" || strings.HasPrefix(c.Ty, "Un"):
 					get = fmt.Sprintf("\"i:\" + strconv.FormatUint(uint64(v.(%s).%s()), 10)", t.Name, c.Name)
 					mk = fmt.Sprintf("n, ok := scU(sc); x := %s(n); return x, ok && uint64(x) == n", gt)
 				default: // signed integer kinds, rune
@@ -528,6 +528,44 @@ func newProbe[T enumI[T]](parse func(any) (T, error), signed bool, bits int, tra
 		}
 		return m.MarshalText()
 	}
+	type wrapT struct {
+		F T "json:\"f\" yaml:\"f\""
+	}
+	// decodeInto: the target starts at init, so that a decoder that silently leaves the target
+	// untouched is seen (round trips start from a value different from the expected one)
+	decodeInto := func(codec string, b []byte, init T, field bool) (T, error) {
+		if field {
+			w := wrapT{F: init}
+			var err error
+			if codec == "json" {
+				err = json.Unmarshal(b, &w)
+			} else {
+				err = yaml.Unmarshal(b, &w)
+			}
+			return w.F, err
+		}
+		e := init
+		switch codec {
+		case "json":
+			err := json.Unmarshal(b, &e)
+			return e, err
+		case "yaml":
+			err := yaml.Unmarshal(b, &e)
+			return e, err
+		}
+		u, ok := any(&e).(encoding.TextUnmarshaler)
+		if !ok {
+			return e, fmt.Errorf("no UnmarshalText")
+		}
+		err := u.UnmarshalText(b)
+		return e, err
+	}
+	encodeField := func(codec string, v T) ([]byte, error) {
+		if codec == "json" {
+			return json.Marshal(wrapT{F: v})
+		}
+		return yaml.Marshal(wrapT{F: v})
+	}
 	decode := func(codec string, b []byte) (T, error) {
 		var e T
 		switch codec {
@@ -630,8 +668,8 @@ func newProbe[T enumI[T]](parse func(any) (T, error), signed bool, bits int, tra
 				return "bad-op"
 			}
 			return res(parse(x))
-		case "marshal", "rt":
-			if len(args) != 2 {
+		case "marshal", "rt", "rtf":
+			if len(args) != 2 || (op == "rtf" && args[0] == "text") {
 				return "bad-op"
 			}
 			vs, ok := vals(arg)
@@ -640,14 +678,20 @@ func newProbe[T enumI[T]](parse func(any) (T, error), signed bool, bits int, tra
 			}
 			r := make([]string, len(vs))
 			for i, v := range vs {
-				b, err := encode(args[0], v)
+				var b []byte
+				var err error
+				if op == "rtf" {
+					b, err = encodeField(args[0], v)
+				} else {
+					b, err = encode(args[0], v)
+				}
 				switch {
 				case err != nil:
 					r[i] = "!err"
 				case op == "marshal":
 					r[i] = asString(args[0], b)
 				default:
-					r[i] = res(decode(args[0], b))
+					r[i] = res(decodeInto(args[0], b, v+1, op == "rtf"))
 				}
 			}
 			return join(r)
